@@ -2,11 +2,11 @@ SPEC = {
     "id": "C28",
     "props_module": "NDB.Props.C28",
     "corr_modules": ["NDB.Corr.C28"],
-    "theorems": ["C28_layout", "C28_frame", "C28_cert_sound", "C28_preserves", "C28_mark_complete", "C28_preserves_typed"],
+    "theorems": ["C28_layout", "C28_frame", "C28_cert_sound", "C28_preserves", "C28_mark_complete", "C28_preserves_typed", "C28_read_paths_rooted", "C28_sessions_preserved"],
     "allowed_axioms": [],
     "harness_pkg": "hx_store",
     "harness_bin": "c28",
-    "n": {"quick": 160, "thorough": 4000},
+    "n": {"quick": 160, "thorough": 1800},
     "harness_timeout": {"quick": 600, "thorough": 3000},
     "trusted_base": [
         "Coq 8.16.1 kernel + vm_compute; coqchk in the thorough tier; axioms: none",
@@ -14,7 +14,8 @@ SPEC = {
         "hand-written model Store/Vacuum.v of vacuum.rs (marking order, shared visited set, error cases, copy) tied to the code by the correspondence: "
         "the harness re-parses the page file (its own parser of B-tree/blob/catalog pages; segment meta pages are passed as bytes and parsed in Coq) and compares "
         "success/failure and the exact set of kept pages with the vacuumed file's bitmap",
-        "that the engine's readers navigate only from the roots (`rooted`) is not proved for the Rust read paths; it is observed: a read of a dropped page fails (PageNotAllocated) and would change the dump",
+        "the read paths are hand-written page-reading programs (Store/Readers.v) proved rooted; that the Rust read paths read no other pages than these models is not proved - it is observed: a read of a dropped page fails (PageNotAllocated) and would change the dump",
+        "HNSW: since fix c995c4b the catalog holds the current roots of the two HNSW trees; vacuum marks both trees and their payload blobs from the catalog entries (model: r_cat_entries with collect=true), histories insert vectors and the dumps compare vector searches",
         "Rust harness harness/hx_store (history generator, canonical dump through nervusdb::Db) and lib/vcheck.py",
     ],
     "assumptions": [
@@ -28,7 +29,7 @@ SPEC = {
                 "The layouts agree (C28_layout: the segment meta page as vacuum.rs parses it = as csr.rs loads it, with constants regenerated from both files - this failed before fix 4137d10). "
                 "That the marking covers the closure (read_set ⊆ reachable) is proved for the marking function on every heap in which no page is used by two structures "
                 "(C28_mark_complete, hypothesis well_typed: a typing of pages consistent with roots and pointers; the hypothesis is exactly what C18's spill violates), hence C28_preserves_typed; "
-                "independently an executable certificate proved sound (C28_cert_sound) is evaluated inside Coq on every generated database, so well-typedness is not assumed for the observed runs. "
+                "the engine's read paths (Pager::open, IdMap::load, catalog, CsrSegment::load, blob read, B-tree descent/scan, tree lookups + blob) modelled as page-reading programs are proved rooted (C28_read_paths_rooted), so every session of them returns the same on the vacuumed file (C28_sessions_preserved); independently an executable certificate proved sound (C28_cert_sound) is evaluated inside Coq on every generated database, so well-typedness is not assumed for the observed runs. "
                 "Direct check: generated histories (compactions, indexes, vectors, big values, deletes, reopen) -> close -> vacuum -> reopen -> dump equal, then write+compact+reopen equal to the un-vacuumed twin.",
         "design_ref": "DESIGN.md §5 C28",
         "level_note": "Trusted: Coq kernel; model tied to vacuum.rs by sampled correspondence (kept page set compared exactly); rootedness of the Rust read paths observed, not proved.",
